@@ -60,16 +60,17 @@ class Gfa(Lines,GraphOperations,RGFA):
     # virtual lines registered while a line is being connected (None if no
     # line is being connected); used to take them back if the line is refused
     self._new_virtual_lines = None
+    self._dialect = "standard" if dialect is None else dialect.lower()
     if version is None:
       self._version = None
       self._version_explanation = None
-      self._version_guess = "gfa2"
+      self._version_guess = "gfa1" if self._dialect == "rgfa" else "gfa2"
     else:
+      self._check_version_allowed_by_dialect(version)
       self._version = version
       self._version_explanation = "set during initialization"
       self._version_guess = version
       self._validate_version()
-    self._dialect = dialect.lower()
     if len(args) == 1:
       lst = None
       if isinstance(args[0], str):
@@ -312,6 +313,10 @@ class Gfa(Lines,GraphOperations,RGFA):
       return
     for line in self.edges + self.fragments:
       line.validate_positions()
+
+  def _check_version_allowed_by_dialect(self, version):
+    if version == "gfa2" and self._dialect == "rgfa":
+      raise gfapy.VersionError("rGFA format only supports GFA version 1")
 
   def _validate_version(self):
     if (self._version != None) and (self._version not in gfapy.VERSIONS):
